@@ -200,9 +200,10 @@ def run(rep, tier, seed):
     cs = C03.cases(tier, seed)
     if tier != "thorough":
         # (an odd stride: the list alternates dynamic/greedy per assignment)
-        cs = [(s, {k: v for k, v in c.items() if k != "delay"} if i % 4
-               else c) for i, (s, c) in enumerate(cs)]
-        cs = [x for i, x in enumerate(cs) if i % 3 != 2]
+        cs = [(s, c if common.keep(i, 4) else
+               {k: v for k, v in c.items() if k != "delay"})
+              for i, (s, c) in enumerate(cs)]
+        cs = [x for i, x in enumerate(cs) if not common.keep(i, 3)]
     e1.sweep(rep, cs, monitors_for,
              {"delay": 2 if tier == "thorough" else 1})
     rep.nontrivial += len(table)
